@@ -197,3 +197,121 @@ Proof.
   destruct (Hfold (combine (sp_ub p) (sp_ts p)) [] [] eq_refl) as [t' [u' [E _]]].
   change (@nil Z : list Z) with (@nil Z). rewrite E. discriminate.
 Qed.
+
+(* ---- idempotence ------------------------------------------------------------------------------
+   sp_step works at the end of the accumulator: view the accumulator as a stack (head = last entry). *)
+Definition sp_step_r (st : list (Z * Z)) (d : Z * Z) : list (Z * Z) :=
+  let '(ub, ts) := d in
+  if ub =? 0 then (0, 0) :: st
+  else if ub =? 1 then st
+  else match st with
+       | (pb, ps) :: r => if pb * ps =? ts then (pb * ub, ps) :: r else (ub, ts) :: st
+       | [] => [(ub, ts)]
+       end.
+
+Lemma sp_step_rev acc d : sp_step acc d = rev (sp_step_r (rev acc) d).
+Proof.
+  destruct d as [ub ts]. unfold sp_step, sp_step_r.
+  destruct (ub =? 0); [cbn [rev]; rewrite rev_involutive; reflexivity|].
+  destruct (ub =? 1); [rewrite rev_involutive; reflexivity|].
+  destruct (rev acc) as [|[pb ps] r] eqn:Er.
+  - cbn [rev app]. rewrite <- (rev_involutive acc), Er. reflexivity.
+  - destruct (pb * ps =? ts); [reflexivity|]. rewrite <- Er. cbn [rev]. rewrite rev_involutive. reflexivity.
+Qed.
+
+Lemma sp_fold_rev items : forall acc, fold_left sp_step items acc = rev (fold_left sp_step_r items (rev acc)).
+Proof.
+  induction items as [|d items IH]; intros acc; cbn [fold_left]; [rewrite rev_involutive; reflexivity|].
+  rewrite IH, sp_step_rev, rev_involutive. reflexivity.
+Qed.
+
+(* canonical stacks: entries are (0,0) or have bound >= 2; an entry with bound >= 2 does not continue
+   the entry below it *)
+Fixpoint canon_st (st : list (Z * Z)) : Prop :=
+  match st with
+  | [] => True
+  | d :: r => ((fst d = 0 /\ snd d = 0) \/ 2 <= fst d)
+              /\ (2 <= fst d -> match r with p :: _ => fst p * snd p <> snd d | [] => True end)
+              /\ canon_st r
+  end.
+
+Lemma sp_step_r_canon st d : canon_st st -> 0 <= fst d -> canon_st (sp_step_r st d).
+Proof.
+  intros Hc Hd. destruct d as [ub ts]. cbn [fst] in Hd. unfold sp_step_r.
+  destruct (ub =? 0) eqn:E0.
+  { cbn [canon_st fst snd]. split; [left; split; reflexivity|]. split; [lia|exact Hc]. }
+  destruct (ub =? 1) eqn:E1; [exact Hc|].
+  apply Z.eqb_neq in E0, E1.
+  destruct st as [|[pb ps] r].
+  { cbn [canon_st fst snd]. split; [right; lia|]. split; [tauto|exact I]. }
+  destruct (pb * ps =? ts) eqn:Em.
+  - cbn [canon_st fst snd] in Hc |- *. destruct Hc as [Hb [Hadj Hr]].
+    split; [|split; [|exact Hr]].
+    + destruct Hb as [[-> ->]|Hb]; [left; split; lia|right; nia].
+    + intros H2. apply Hadj. destruct Hb as [[-> _]|Hb]; lia.
+  - apply Z.eqb_neq in Em. cbn [canon_st fst snd] in Hc |- *.
+    split; [right; lia|]. split; [intros _; exact Em|exact Hc].
+Qed.
+
+Lemma sp_fold_r_canon items : forall st, canon_st st -> Forall (fun d => 0 <= fst d) items ->
+  canon_st (fold_left sp_step_r items st).
+Proof.
+  induction items as [|d items IH]; intros st Hc Hi; cbn [fold_left]; [exact Hc|].
+  inversion Hi; subst. apply IH; [apply sp_step_r_canon|]; assumption.
+Qed.
+
+Lemma canon_st_suffix a : forall b, canon_st (a ++ b) -> canon_st b.
+Proof. induction a as [|x a IH]; intros b H; [exact H|]. apply IH. cbn [app canon_st] in H. tauto. Qed.
+
+Lemma sp_step_r_id d st : canon_st (d :: st) -> sp_step_r st d = d :: st.
+Proof.
+  destruct d as [b s]. cbn [canon_st fst snd]. intros [Hb [Hadj _]]. unfold sp_step_r.
+  destruct Hb as [[-> ->]|Hb]; [reflexivity|].
+  replace (b =? 0) with false by lia. replace (b =? 1) with false by lia.
+  destruct st as [|[pb ps] r]; [reflexivity|].
+  specialize (Hadj Hb). cbn [fst snd] in Hadj. replace (pb * ps =? s) with false by lia. reflexivity.
+Qed.
+
+Lemma sp_fold_r_id rest : forall st, canon_st (rev rest ++ st) -> fold_left sp_step_r rest st = rev rest ++ st.
+Proof.
+  induction rest as [|d rest IH]; intros st H; cbn [fold_left rev app]; [reflexivity|].
+  cbn [rev] in H. rewrite <- app_assoc in H. cbn [app] in H.
+  rewrite sp_step_r_id by (apply (canon_st_suffix (rev rest)); exact H).
+  rewrite IH by exact H. rewrite <- app_assoc. reflexivity.
+Qed.
+
+(* the reference loop is idempotent on non-negative bounds *)
+Lemma sp_fold_idempotent items : Forall (fun d => 0 <= fst d) items ->
+  fold_left sp_step (fold_left sp_step items []) [] = fold_left sp_step items [].
+Proof.
+  intros Hi. rewrite !sp_fold_rev. cbn [rev]. f_equal.
+  set (c := fold_left sp_step_r items []).
+  assert (Hc : canon_st c) by (apply sp_fold_r_canon; [exact I|exact Hi]).
+  rewrite sp_fold_r_id; rewrite rev_involutive, app_nil_r; [reflexivity|exact Hc].
+Qed.
+
+Lemma combine_inj {A B} (a1 : list A) : forall a2 (b1 b2 : list B),
+  length a1 = length b1 -> length a2 = length b2 -> combine a1 b1 = combine a2 b2 -> a1 = a2 /\ b1 = b2.
+Proof.
+  induction a1 as [|x a1 IH]; intros [|y a2] [|u b1] [|v b2] H1 H2 H; simpl in *; try discriminate; try lia; [split; reflexivity|].
+  injection H as -> -> H. destruct (IH a2 b1 b2) as [-> ->]; [lia|lia|exact H|]. split; reflexivity.
+Qed.
+
+Lemma combine_nonneg (ub : list Z) : forall ts, Forall (fun b => 0 <= b) ub -> Forall (fun d : Z * Z => 0 <= fst d) (combine ub ts).
+Proof.
+  induction ub as [|b bs IH]; intros ts Hb; [constructor|].
+  destruct ts as [|t ts]; [constructor|]. inversion Hb; subst. cbn [combine]. constructor; [assumption|apply IH; assumption].
+Qed.
+
+(* canonicalize is idempotent (on the generated model) for every pattern with non-negative bounds *)
+Theorem stride_canon_idempotent p p' :
+  Forall (fun b => 0 <= b) (sp_ub p) ->
+  StridePattern_canonicalize p = Some p' -> StridePattern_canonicalize p' = Some p'.
+Proof.
+  intros Hb H. destruct (gen_canon_refines p p' H) as [[Hz ->]|[Hz [Hss [Hl Hc]]]]; [exact H|].
+  destruct (stride_canon_total p') as [p'' H2]. rewrite H2. f_equal.
+  destruct (gen_canon_refines p' p'' H2) as [[_ ->]|[_ [Hss2 [Hl2 Hc2]]]]; [reflexivity|].
+  rewrite Hc in Hc2. rewrite sp_fold_idempotent in Hc2 by (apply combine_nonneg; exact Hb). rewrite <- Hc in Hc2.
+  destruct (combine_inj _ _ _ _ Hl2 Hl Hc2) as [Hu Ht].
+  destruct p' as [u t s], p'' as [u2 t2 s2]. cbn [sp_ub sp_ts sp_ss] in *. congruence.
+Qed.
